@@ -175,7 +175,9 @@ Proof.
   all: try solve [destruct post as [|[k n] p]; [reflexivity|]; cbn in *; destruct k; try discriminate; auto; rewrite Hb; reflexivity].
   - (* TRef *) destruct q; [|reflexivity]. destruct args; [|reflexivity]. cbn [dots].
     destruct post as [|[k n] p]; [reflexivity|]. cbn in *. destruct k; try discriminate; auto. rewrite Hb. reflexivity.
-  - (* TFn *) destruct (kind =? 2) eqn:E2; [reflexivity|]. destruct (kind =? 1) eqn:E1; [reflexivity|]. lia.
+  - (* TKeyof *) match goal with Ht : wfb ?t0 = true |- paren_try_fails (_ :: R ?t0 post) = true =>
+      pose proof (R_hd mg t0 Ht post) as Hh; destruct (R t0 post) as [|[k2 n2] r2]; [reflexivity|]; cbn in Hh; destruct k2; try discriminate; reflexivity end.
+  - (* TFn *) destruct (kind =? 2); [reflexivity|]. destruct (kind =? 1); [reflexivity|]. destruct tps; reflexivity.
 Qed.
 
 Lemma K_paren t : Kst t -> Kst (TParen t).
